@@ -217,9 +217,16 @@ def header_items(headers: typing.Any) -> list[tuple[typing.Any, typing.Any]]:
 def judge(rec: Recorder, entry: str, method: typing.Any, url: typing.Any, headers: typing.Any, body: typing.Any, tag: str) -> None:
     from urllib3.util import SKIP_HEADER
 
-    case = {"entry": entry, "method": method, "url": url, "headers": header_items(headers), "hdr_type": type(headers).__name__, "body": body if isinstance(body, (bytes, str, type(None))) else ["iter"] + [x for x in body], "tag": tag}
+    is_buf = isinstance(body, tuple) and body and body[0] == "array-H"
+    case = {"entry": entry, "method": method, "url": url, "headers": header_items(headers), "hdr_type": type(headers).__name__, "body": (["array-H", body[1]] if is_buf else (body if isinstance(body, (bytes, str, type(None))) else ["iter"] + [x for x in body])), "tag": tag}
     body_arg = body
-    if isinstance(body, list):
+    if is_buf:
+        import array
+
+        # a bytes-like body whose buffer has 2-byte items: its bytes spell a second request, so a length counted in
+        # items instead of bytes leaves the rest on the wire as a message of its own
+        body_arg = array.array("H", body[1])
+    elif isinstance(body, list):
         body_arg = iter(list(body))
     net, err = run_call(entry, method, url, headers, body_arg)
     rec.mon("call")
@@ -448,7 +455,7 @@ def run_shard(ctx: Ctx, rec: Recorder) -> None:
         hdrs: typing.Any = {hn: hv, "X-After": "1"}
         if rng.random() < 0.2:
             hdrs = HTTPHeaderDict([(hn, hv), ("X-After", "1"), (hn, "second")]) if all(isinstance(x, str) for x in (hn, hv)) else hdrs
-        body = rng.choice([None, None, b"abc", "str", [b"c1", b"c2"]]) if m not in ("GET", "HEAD") else None
+        body = rng.choice([None, None, b"abc", "str", [b"c1", b"c2"], ("array-H", b"xxxGET /smuggled HTTP/1.1\r\nHost: evil.test\r\n\r\n")]) if m not in ("GET", "HEAD") else None
         rec.case(["rand", entry, m, u, header_items(hdrs), repr(body)])
         judge(rec, entry, m, u, hdrs, body, "random")
     h2_checks(ctx, rec)
@@ -547,6 +554,8 @@ def replay(case: dict[str, typing.Any], ctx: Ctx, rec: Recorder) -> None:
     body = case["body"]
     if isinstance(body, dict) and "__bytes__" in body:
         body = body["__bytes__"].encode("latin-1")
+    elif isinstance(body, list) and body and body[0] == "array-H":
+        body = ("array-H", body[1]["__bytes__"].encode("latin-1") if isinstance(body[1], dict) else body[1])
     elif isinstance(body, list) and body and body[0] == "iter":
         body = [b["__bytes__"].encode("latin-1") if isinstance(b, dict) else b for b in body[1:]]
     rec.case(case)
